@@ -10,7 +10,7 @@
    holds s p: takeLocks has returned for p and giveLocks has not been called yet.  related cfg p q: one
    of them is the EUPS_LOCK_PID ancestor of the other. *)
 From Eupsv Require Import Base.Base Model.Lock Proofs.LockLib Proofs.LockNext Proofs.LockNext2 Proofs.Lock
-  Proofs.LockLive Generated.Locks.
+  Proofs.LockLive Generated.Locks Model.LockName Proofs.LockName.
 
 (* ---- mutual exclusion *)
 
@@ -36,6 +36,84 @@ Proof.
   destruct (mutex cfg s p q k WF R Hp Hq E NR Kp Kq) as [A B]. unfold isEx. now rewrite A, B.
 Qed.
 Print Assumptions mutex_okb_reachable.
+
+(* ---- the file-name layer (Model/LockName.v): the lock directory holds NAMES kind-user.pid, and takeLocks
+   decides on what listLockers reads back out of them *)
+
+(* the name of a lock file reads back as its kind, its owner's login name and its pid: for every kind, every
+   pid of any width and every login name the pattern can match at all (not empty, no newline; dots, dashes,
+   at-signs, digits, slashes are all fine) *)
+Theorem lock_name_roundtrip k u p :
+  user_ok u = true -> parse_lock_name (lock_name k u p) = Some (k, u, digits p).
+Proof. exact (parse_lock_name_roundtrip k u p). Qed.
+Print Assumptions lock_name_roundtrip.
+
+(* pids are compared as the strings written in the names: two pids are told apart whatever their widths *)
+Theorem pid_strings_distinct p q : digits p = digits q -> p = q.
+Proof. exact (digits_inj p q). Qed.
+Print Assumptions pid_strings_distinct.
+
+(* mutual exclusion of the protocol run on names: every process has a login name of its own choosing; for
+   every schedule, every number of processes and stacks, every retry budget.  [nstep] is [step] with every
+   query on the directory replaced by listLockers over the names; it starts from empty stacks *)
+Theorem mutex_named cfg usr ns p q k :
+  wf cfg -> users_ok usr -> nreachable true true cfg usr no_junk ns ->
+  nholds ns p -> nholds ns q -> p <> q -> ~ related cfg p q ->
+  In k (path_of cfg p) -> In k (path_of cfg q) ->
+  kind_of cfg p = Sh /\ kind_of cfg q = Sh.
+Proof. exact (mutex_named_proof cfg usr ns p q k). Qed.
+Print Assumptions mutex_named.
+
+(* the step the proof of mutex_named rests on: a state over names that shows a state over owners steps to
+   one that shows its successor (so every theorem about [reachable] carries over to names) *)
+Theorem names_refine_owners cfg usr fx fr ns s p c :
+  users_ok usr -> shows cfg usr ns s -> shows cfg usr (nstep fx fr cfg usr ns p c) (step_gen fx fr cfg s p c).
+Proof. intro U. exact (shows_step cfg usr U fx fr ns s p c). Qed.
+Print Assumptions names_refine_owners.
+
+(* an exclusive lock file is seen by every reader whoever owns it: with the lock file of an exclusive process
+   q in the directory, the scan for exclusive files of a shared requester p (not q's child) is not empty and
+   its second look reports a conflict *)
+Theorem exclusive_lock_seen cfg usr p q fs :
+  users_ok usr -> In q fs -> kind_of cfg q = Ex -> kind_of cfg p = Sh -> q <> p -> root_of cfg p <> Some q ->
+  list_lockers PExcl [] (map (myname cfg usr) fs) <> [] /\ n_conflict cfg p (map (myname cfg usr) fs) = true.
+Proof. exact (exclusive_seen cfg usr p q fs). Qed.
+Print Assumptions exclusive_lock_seen.
+
+(* entries of the lock directory that are not lock files (they do not parse, or the pattern does not match
+   them: editor back-ups, .nfs files) change no listing *)
+Theorem foreign_entries_invisible pt ig a j b :
+  parse_lock_name j = None \/ glob_match pt j = false ->
+  list_lockers pt ig (a ++ j :: b) = list_lockers pt ig (a ++ b).
+Proof. exact (foreign_invisible pt ig a j b). Qed.
+Print Assumptions foreign_entries_invisible.
+
+Example names_parse :
+  parse_lock_name (lit "exclusive-john.doe.4711") = Some (Ex, lit "john.doe", lit "4711") /\
+  parse_lock_name (lit "shared-www-data.7") = Some (Sh, lit "www-data", lit "7") /\
+  parse_lock_name (lit "exclusive-first.last@realm.12.345") = Some (Ex, lit "first.last@realm.12", lit "345") /\
+  parse_lock_name (lit "shared-bob.007") = Some (Sh, lit "bob", lit "007") /\
+  parse_lock_name (lit "exclusive-root.12~") = None /\ parse_lock_name (lit "exclusive.bak") = None /\
+  parse_lock_name (lit "shared-.12") = None /\ parse_lock_name (lit "locked-root.12") = None /\
+  lock_name Ex (lit "john.doe") 4711 = lit "exclusive-john.doe.4711".
+Proof. vm_compute. repeat split; reflexivity. Qed.
+
+(* a writer john.doe (pid 12) holds; a reader www-data (pid 123) is refused at its scan; with foreign entries
+   in the directory from the start a reader still acquires, and gives the lock back leaving them alone *)
+Definition named_procs : nprocs :=
+  [(12, (Ex, None, 1, [0]), lit "john.doe"); (123, (Sh, None, 1, [0]), lit "www-data")].
+Example named_writer_excludes_reader :
+  let cfg := cfg_of (procs_of named_procs) in
+  let s := last (ntrace true true cfg (usr_of named_procs) (ninit no_junk) (map (fun p => (p, 0)) [12; 12; 12; 12; 123; 123; 123; 123])) (ninit no_junk) in
+  nholdsb s 12 = true /\ lpc (nlocal s 123) = LFailed /\ nfiles s 0 = [lit "exclusive-john.doe.12"].
+Proof. vm_compute. repeat split; reflexivity. Qed.
+Example named_reader_among_foreign :
+  let cfg := cfg_of (procs_of named_procs) in
+  let junk := junk_of [[lit "exclusive.bak"; lit ".nfs0001"]] in
+  let t := ntrace true true cfg (usr_of named_procs) (ninit junk) (map (fun p => (p, 0)) [123; 123; 123; 123; 123; 123; 123; 123; 123; 123]) in
+  existsb (fun s => nholdsb s 123) t = true /\
+  lpc (nlocal (last t (ninit junk)) 123) = LDone /\ nfiles (last t (ninit junk)) 0 = junk 0.
+Proof. vm_compute. repeat split; reflexivity. Qed.
 
 (* The pinned protocol does not have the property.  Three check-then-act windows, each with its schedule;
    process 1 is the shared requester, 3 the exclusive one, 2 a reader that comes and goes; one stack. *)
